@@ -173,27 +173,33 @@ RunEnd == /\ running /\ stopReq /\ running' = FALSE
 
 Marked(p) == [disp EXCEPT ![p] = TRUE]
 
-CbJob(id) ==
+CbJobOK(id) ==
   /\ running /\ id \in DOMAIN jobs /\ jobs[id].st = "wait"
   /\ \A j \in WaitingJobs(jobs[id].p) : jobs[j].seq >= jobs[id].seq          \* FIFO within a priority
+CbJobEff(id) ==
   /\ jobs' = [jobs EXCEPT ![id].st = "done"]
   /\ disp' = Marked(jobs[id].p)
   /\ UNCHANGED <<timers, fds, sigs, kreg, sigq, now, seqno, running, stopReq, dry, turns, elig, taint, lastTimeout>>
+CbJob(id) == CbJobOK(id) /\ CbJobEff(id)
 
-CbTimer(id) ==
+CbTimerOK(id) ==
   /\ running /\ TimerLive(id)
   /\ BLe(timers[id].exp, now)                                                  \* never early
   /\ \A t \in ActiveTimers : timers[t].p = timers[id].p => BLe(timers[id].exp, timers[t].exp)   \* expiry order
+CbTimerEff(id) ==
   /\ timers' = [timers EXCEPT ![id].st = "fired"]
   /\ disp' = Marked(timers[id].p)
   /\ UNCHANGED <<jobs, fds, sigs, kreg, sigq, now, seqno, running, stopReq, dry, turns, elig, taint, lastTimeout>>
+CbTimer(id) == CbTimerOK(id) /\ CbTimerEff(id)
 
-CbFd(reg, revents) ==
+CbFdOK(reg, revents) ==
   /\ running /\ reg \in DOMAIN fds /\ fds[reg].st = "active" /\ fds[reg].pend # 0
   /\ revents = fds[reg].pend
+CbFdEff(reg) ==
   /\ fds' = [fds EXCEPT ![reg].pend = 0, ![reg].age = 0]
   /\ disp' = Marked(fds[reg].p)
   /\ UNCHANGED <<jobs, timers, sigs, kreg, sigq, now, seqno, running, stopReq, dry, turns, elig, taint, lastTimeout>>
+CbFd(reg, revents) == CbFdOK(reg, revents) /\ CbFdEff(reg)
 
 (* the descriptor callback returns: a negative value ends the registration (the kernel keeps polling the
    descriptor until the application closes it) *)
@@ -237,10 +243,8 @@ BitOr(a, b) == LET bit(x, k) == (x \div k) % 2 IN
 
 (* Poll: the loop calls poll with timeout tmo; the environment reports `ready` (a set of <<fd, events>>),
    lets `adv` time pass and `raised` signals arrive.  This is the iteration boundary.             *)
-Poll(tmo, ready, adv, raised) ==
-  /\ running
-  /\ TimeoutOK(tmo)
-  /\ (MustNotSleep => (tmo >= 0 /\ tmo <= 50))
+PollOK(tmo) == running /\ TimeoutOK(tmo) /\ (MustNotSleep => (tmo >= 0 /\ tmo <= 50))
+PollEff(tmo, ready, adv, raised) ==
   /\ lastTimeout' = tmo
   /\ now' = BAdd(now, adv)
   /\ LET q == sigq \o raised IN
@@ -265,11 +269,13 @@ Poll(tmo, ready, adv, raised) ==
                               \/ (\E r \in DOMAIN fds : (fds'[r].st = "active" /\ fds'[r].p = p /\ fds'[r].pend # 0))
                               \/ (\E x \in DOMAIN sigs : (sigs'[x].st = "active" /\ sigs'[x].p = p /\ sigs'[x].owed > 0))]
   /\ taint' = FALSE
-  /\ NoStarvation' /\ WeakPriority'
   /\ disp' = L3(FALSE)
   /\ UNCHANGED <<kreg, seqno, running, stopReq>>
 
 -----------------------------------------------------------------------------
+PollPost == NoStarvation' /\ WeakPriority'
+Poll(tmo, ready, adv, raised) == PollOK(tmo) /\ PollEff(tmo, ready, adv, raised) /\ PollPost
+
 (* C08: status sanity *)
 TypeOK == /\ \A j \in DOMAIN jobs : jobs[j].st \in {"wait", "done", "del"}
           /\ \A t \in DOMAIN timers : timers[t].st \in {"active", "fired", "del"}
